@@ -29,7 +29,13 @@ h_precalc_secs(void)
 	i64 a, tot, fin;
 	const int hw = FLAGS & 1, hd = (FLAGS >> 1) & 1, hh = (FLAGS >> 2) & 1, hm = (FLAGS >> 3) & 1, hs = (FLAGS >> 4) & 1;
 
+#if defined DBASE
+	/* a window of 2^DBITS seconds starting at DBASE, either sign */
+	ASSUME((vdv >= (i64)DBASE && vdv < (i64)DBASE + (1LL << DBITS)) ||
+	       (vdv <= -(i64)DBASE && vdv > -(i64)DBASE - (1LL << DBITS)));
+#else
 	ASSUME(vdv > -(1LL << DBITS) && vdv < (1LL << DBITS));
+#endif
 	f.has_week = hw, f.has_day = hd, f.has_hour = hh, f.has_min = hm, f.has_sec = hs;
 	memset(&dur, 0, sizeof(dur));
 	dur.durtyp = DT_DURS;
